@@ -111,6 +111,14 @@ def check_surface(case, ctx):
             ctx.check(len(flat4) == su * sv and len(g4) == su and all(len(r) == sv for r in g4) and
                       all(_eq_pts([g4[u][v]], [flat4[v + sv * u]]) for u in range(su) for v in range(sv)), "layout-after-refused-net",
                       "after a refused set_ctrlpts the surface reports sizes %r, %d stored points and a %dx%d grid view" % ([su, sv], len(flat4), len(g4), len(g4[0]) if g4 else 0))
+    # the control point block the lookup reports for a parameter pair is a block of the same grid
+    for us in shape.obj_lattice(obj, limit=3):
+        blk = operations.find_ctrlpts(obj, float(us[0]), float(us[1]))
+        su_, sv_ = R.spans(us)
+        pu__, pv__ = d["degree"]
+        ok_blk = len(blk) == pu__ + 1 and all(len(r_) == pv__ + 1 for r_ in blk) and all(
+            _eq_pts([blk[a_][b_]], [g[su_ - pu__ + a_][sv_ - pv__ + b_]]) for a_ in range(pu__ + 1) for b_ in range(pv__ + 1))
+        ctx.check(ok_blk, "lookup-block", "find_ctrlpts(%r, %r) is not the block [%d..%d] x [%d..%d] of ctrlpts2d" % (float(us[0]), float(us[1]), su_ - pu__, su_, sv_ - pv__, sv_))
     # transpose
     before = build.snapshot(obj)
     T = operations.transpose(obj, inplace=False)
